@@ -29,6 +29,8 @@ type Opts struct {
 	Literal func(t *rapid.T, kind string) string
 	// NoPlaceholders suppresses ?, :name and $n.
 	NoPlaceholders bool
+	// RawByteNames adds quoted identifiers that are not valid UTF-8.
+	RawByteNames bool
 }
 
 func (o Opts) depth() int {
@@ -153,6 +155,10 @@ var hardKeywords = []string{"select", "from", "where", "order", "group", "key", 
 // names that only exist quoted
 var oddNames = []string{`a\b`, "a b", "a-b", "1a", "a.b", "Ünï", "a'b", "a(b)", "x;y", "$1", "a?b", "select 1", " lead", "trail "}
 
+// latin1Names are names that are not valid UTF-8 (what a latin1 connection sends); only with Opts.RawByteNames,
+// because not every consumer can carry them (a YAML firewall configuration cannot)
+var latin1Names = []string{"\xf7", "n\xe9e"}
+
 // quoteIdent spells name as a quoted identifier of the dialect, escaping the quote by doubling.
 func (g *gen) quoteIdent(name string) string {
 	q := "`"
@@ -182,7 +188,11 @@ func (g *gen) ident(label string) string {
 	case 3:
 		return g.quoteIdent(g.kwAny(label))
 	case 4:
-		return g.quoteIdent(g.oneOf(label+".odd", oddNames...))
+		names := oddNames
+		if g.o.RawByteNames {
+			names = append(append([]string{}, oddNames...), latin1Names...)
+		}
+		return g.quoteIdent(g.oneOf(label+".odd", names...))
 	case 5:
 		// the dialect's own quote character inside the name
 		q := "`"
